@@ -1,4 +1,4 @@
-(* C19 — proofs about Validate.v, part 3: the cyclic models *)
+(* C19 — proofs about Validate.v, part 3: MinFlowDecompCycles; the property at full strength per class *)
 From Coq Require Import List Bool ZArith QArith Arith Lia.
 Import ListNotations.
 From FP Require Import Validate ValidateProofs ValidateProofs2.
@@ -6,115 +6,125 @@ Local Close Scope Q_scope.
 Local Open Scope bool_scope.
 Set Default Timeout 120.
 
-Ltac unfold_all ::=
-  unfold validate_stDAG, validate_stDiGraph, validate_NodeExpandedDiGraph, validate_kFlowDecomp, validate_MinFlowDecomp,
-    validate_kMinPathError, validate_kLeastAbsErrors, validate_kErrDAG, validate_kPathCover, validate_MinPathCover,
-    validate_MinErrorFlow, validate_kFlowDecompCycles, validate_kLeastAbsErrorsCycles, validate_kMinPathErrorCycles,
-    validate_kErrCycles, validate_kPathCoverCycles, validate_MinPathCoverCycles, validate_MinFlowDecompCycles,
-    mfd_solve, kfd_core, kfdc_core, front_cover, front, front_node, front_edge, v_stdag, v_stdigraph, v_ssg_common, v_nodeexp,
-    v_maxflow, v_pathmodel, v_walkmodel, v_walkmodel_k, v_fooled, st_of, en_of, fooled, no_src, no_snk, VE in *.
-
-Definition dev_fooled_st (i : input) := fooled i (st_of i) (en_of i).
-Definition dev_noncons (i : input) := ign_internal_empty i && negb (conserving i).
-
-(* ================================================================== kFlowDecompCycles *)
-Definition deviates_kFlowDecompCycles (i : input) :=
-  all_ignored i || dev_cov i || dev_expand i || dev_k_nonint i || dev_fooled_st i || dev_noncons i.
-Theorem validate_sound_kFlowDecompCycles i :
-  validate_kFlowDecompCycles i = RaiseValueError -> in_domain_kFlowDecompCycles i = false.
+Lemma all_ignored_no_usable i : all_ignored i = true -> no_usable i = true.
 Proof.
-  intros H. destruct (in_domain_kFlowDecompCycles i) eqn:D; [exfalso|reflexivity]. sound_script i.
+  unfold no_usable, all_ignored. induction (elems i) as [|e l IH]; cbn; auto.
+  intros A. apply andb_prop in A as [A1 A2]. rewrite (IH A2), andb_true_r.
+  unfold ignored in A1. destruct (e_ign e); cbn in *; auto.
+  destruct (origin i), (e_w e); cbn in *; try discriminate; auto.
+Qed.
+Lemma usable_not_all_ignored i : no_usable i = false -> all_ignored i = false.
+Proof.
+  intros U. destruct (all_ignored i) eqn:A; auto. rewrite (all_ignored_no_usable i A) in U. discriminate.
+Qed.
+Lemma live_usable i : has_live i = true -> bad_live i = false -> no_usable i = false.
+Proof.
+  intros L B. destruct (no_usable i) eqn:U; auto. rewrite (no_usable_live_bad i U L) in B. discriminate.
 Qed.
 
-Lemma k_pos_split i : k_pos_int i = k_is_int i && negb (k_le0 i).
+Definition deviates_MinFlowDecompCycles (i : input) := dev_expand i || negb (search_enters i) || dev_noncons i.
+Definition no_extra (i : input) := is_nil (starts i) && is_nil (ends i).
+
+(* OPEN: node mode + additional starts/ends is refused by the constructor, hence [no_extra] *)
+Theorem validate_sound_MinFlowDecompCycles i :
+  has_live i = true -> no_extra i = true ->
+  validate_MinFlowDecompCycles i = RaiseValueError -> in_domain_MinFlowDecompCycles i = false.
 Proof.
-  unfold k_pos_int, k_is_int, k_le0. destruct (k i); [|reflexivity]. cbn.
-  destruct (Z.ltb_spec 0 z), (Z.leb_spec z 0); cbn; auto; lia.
+  intros L X H. unfold no_extra in *. destruct (in_domain_MinFlowDecompCycles i) eqn:D; [exfalso|reflexivity].
+  apply andb_prop in X as [X1 X2].
+  assert (B : bad_live i = false).
+  { unfold_dom. destruct (origin i); bsimp; try discriminate; split_dom D; norm_hyps; assumption. }
+  pose proof (live_usable i L B) as U. pose proof (usable_not_all_ignored i U) as A.
+  sound_script i.
 Qed.
-
-Ltac crunch :=
-  norm_hyps;
-  repeat (match goal with
-          | H : ?e = _ |- _ =>
-            lazymatch e with
-            | _ && _ => dleaf e
-            | _ || _ => dleaf e
-            end
-          end; bsimp; norm_hyps);
-  try discriminate; try reflexivity; try solve [clash].
-Ltac rw_origin i O :=
-  repeat match goal with H : context [origin i] |- _ => tryif constr_eq H O then fail else rewrite O in H end.
-Ltac complete_script_c i :=
-  unfold dev_fooled_st, dev_noncons in *; unfold_dom; unfold_all; destruct (origin i) eqn:O; bsimp; try reflexivity;
-  (destruct (cons_wf i) eqn:W; [use_wf i | use_bad i]);
-  unfold_dev; unfold dev_fooled_st, dev_noncons, fooled, no_src, no_snk, st_of, en_of in *;
-  rw_origin i O;
-  prep_lists; rw_goal; bsimp; fing; crunch.
-
-Theorem validate_complete_kFlowDecompCycles i :
-  in_domain_kFlowDecompCycles i = false -> deviates_kFlowDecompCycles i = false ->
-  validate_kFlowDecompCycles i = RaiseValueError.
+Theorem validate_complete_MinFlowDecompCycles i :
+  in_domain_MinFlowDecompCycles i = false -> deviates_MinFlowDecompCycles i = false ->
+  validate_MinFlowDecompCycles i = RaiseValueError.
 Proof.
-  intros D V. unfold deviates_kFlowDecompCycles in V. split_dev V. norm_hyps.
-  unfold in_domain_kFlowDecompCycles in D. rewrite k_pos_split in D. complete_script_c i.
+  intros D V. unfold deviates_MinFlowDecompCycles in V. split_dev V. norm_hyps.
+  destruct (no_usable i) eqn:U.
+  - unfold dev_noncons in *; unfold_dom; unfold_all; destruct (origin i) eqn:O; bsimp; try reflexivity;
+    (destruct (cons_wf i) eqn:W; [use_wf i | use_bad i]); rw_origin i O; prep_lists; rw_goal; bsimp; fing; crunch.
+  - pose proof (usable_not_all_ignored i U) as A.
+    destruct (starts i) as [|s0 sl] eqn:ST, (ends i) as [|e0 el] eqn:EN;
+    unfold dev_noncons in *; unfold_dom; unfold_all; rewrite ?ST, ?EN in *; destruct (origin i) eqn:O; bsimp; try reflexivity;
+    (destruct (cons_wf i) eqn:W; [use_wf i | use_bad i]); rw_origin i O; prep_lists; rw_goal; bsimp; fing; crunch.
 Qed.
-
-Ltac accept_script_c i :=
-  unfold dev_fooled_st, dev_noncons in *; unfold_dom; unfold_all; destruct (origin i) eqn:O; bsimp; try discriminate;
-  match goal with D : _ = true |- _ => split_dom D end; use_size; norm_hyps; try use_wf i; try use_k i;
-  unfold dev_fooled_st, dev_noncons, fooled, no_src, no_snk, st_of, en_of in *; rw_origin i O;
-  prep_lists; rw_goal; bsimp; fing; crunch.
-
-Theorem accepts_domain_kFlowDecompCycles i :
-  in_domain_kFlowDecompCycles i = true -> has_live i = true -> validate_kFlowDecompCycles i = Accept.
+Theorem accepts_domain_MinFlowDecompCycles i :
+  in_domain_MinFlowDecompCycles i = true -> has_live i = true -> search_enters i = true ->
+  no_extra i = true -> validate_MinFlowDecompCycles i = Accept.
 Proof.
-  intros D L. rewrite has_live_all_ignored in L. apply negb_true_iff in L. accept_script_c i.
+  intros D L S X. unfold no_extra in *. apply andb_prop in X as [X1 X2].
+  assert (B : bad_live i = false).
+  { unfold_dom. destruct (origin i); bsimp; try discriminate; split_dom D; norm_hyps; assumption. }
+  pose proof (live_usable i L B) as U. pose proof (usable_not_all_ignored i U) as A.
+  accept_script i.
 Qed.
-(* DESIGN #21: a non-conserving flow is not rejected, the model is infeasible (unsolved) *)
-Theorem validate_kFlowDecompCycles_refuted_nonconserving :
-  exists i, in_domain_kFlowDecompCycles i = false /\ validate_kFlowDecompCycles i = AcceptsButUnsolved.
+(* OPEN: node mode + additional starts: NodeExpandedDiGraph is called without try_filling_in_missing_flow_attr and refuses *)
+Theorem accepts_domain_MinFlowDecompCycles_refuted_node_mode_starts :
+  exists i, in_domain_MinFlowDecompCycles i = true /\ has_live i = true /\ validate_MinFlowDecompCycles i = RaiseValueError.
+Proof. exists (set_origin (set_starts ex_graph true [true]) ONode TFloat). vm_compute. auto. Qed.
+Theorem validate_MinFlowDecompCycles_refuted_nonconserving :
+  exists i, in_domain_MinFlowDecompCycles i = false /\ validate_MinFlowDecompCycles i = AcceptsButUnsolved.
 Proof. exists (set_flags ex_graph false false true [true; true]). vm_compute. auto. Qed.
-Theorem validate_kFlowDecompCycles_refuted_k_float :
-  exists i, in_domain_kFlowDecompCycles i = false /\ validate_kFlowDecompCycles i = RaiseOther EType.
-Proof. exists (set_k ex_graph (KNonInt (5#2))). vm_compute. auto. Qed.
-(* DESIGN #20 *)
-Theorem validate_kFlowDecompCycles_refuted_fooled :
-  exists i, in_domain_kFlowDecompCycles i = false /\ validate_kFlowDecompCycles i = RaiseOther ECrash.
-Proof. exists (with_nosource ex_graph true). vm_compute. auto. Qed.
 
-(* ================================================================== kLeastAbsErrorsCycles / kMinPathErrorCycles *)
-Definition deviates_kErrCycles (i : input) :=
-  all_ignored i || dev_cov i || dev_expand i || dev_k_nonint i || dev_fooled_st i.
-Theorem validate_sound_kErrCycles i : validate_kErrCycles i = RaiseValueError -> in_domain_kErrCycles i = false.
+(* ================================================================== the property at full strength *)
+Definition full_statement (c : cls) : Prop :=
+  forall i, (in_domain c i = false -> validate c i = RaiseValueError) /\
+            (in_domain c i = true -> has_live i = true -> validate c i = Accept).
+(* the abstraction's own side conditions: the k-loop of the Min* classes runs (it does whenever the caller does not pass a
+   lower bound above |E|), and no constraint of a node-weighted model mixes edges with non-iterable items (the one constraint
+   deviation that is still open) *)
+Definition regular (i : input) : bool := search_enters i && negb (dev_expand i).
+Definition full_statement_regular (c : cls) : Prop :=
+  forall i, regular i = true ->
+            (in_domain c i = false -> validate c i = RaiseValueError) /\
+            (in_domain c i = true -> has_live i = true -> validate c i = Accept).
+
+Theorem full_stDAG : full_statement CstDAG.
+Proof. intros i. split; [apply validate_complete_stDAG|intros D _; apply accepts_domain_stDAG; auto]. Qed.
+Theorem full_stDiGraph : full_statement CstDiGraph.
+Proof. intros i. split; [apply validate_complete_stDiGraph|intros D _; apply accepts_domain_stDiGraph; auto]. Qed.
+Theorem full_NodeExpandedDiGraph : full_statement CNodeExpandedDiGraph.
 Proof.
-  intros H. destruct (in_domain_kErrCycles i) eqn:D; [exfalso|reflexivity]. sound_script i.
+  intros i. split; [apply validate_complete_NodeExpandedDiGraph|intros D _; apply accepts_domain_NodeExpandedDiGraph; auto].
 Qed.
-Theorem validate_complete_kErrCycles i :
-  in_domain_kErrCycles i = false -> deviates_kErrCycles i = false -> validate_kErrCycles i = RaiseValueError.
+Theorem full_MinErrorFlow : full_statement CMinErrorFlow.
+Proof. intros i. split; [apply validate_complete_MinErrorFlow|intros D _; apply accepts_domain_MinErrorFlow; auto]. Qed.
+
+Ltac reg R := unfold regular in R; apply andb_prop in R as [R1 R2]; apply negb_true_iff in R2.
+Theorem full_regular_kPathCover : full_statement_regular CkPathCover.
+Proof. intros i R. reg R. split; [intros D; apply validate_complete_kPathCover; auto|intros D _; apply accepts_domain_kPathCover; auto]. Qed.
+Theorem full_regular_MinPathCover : full_statement_regular CMinPathCover.
 Proof.
-  intros D V. unfold deviates_kErrCycles in V. split_dev V. norm_hyps.
-  unfold in_domain_kErrCycles in D. rewrite k_pos_split in D. complete_script_c i.
+  intros i R. reg R. split; [intros D; apply validate_complete_MinPathCover; auto; unfold deviates_MinPathCover; rewrite R1, R2; reflexivity
+                            |intros D _; apply accepts_domain_MinPathCover; auto].
 Qed.
-Theorem accepts_domain_kErrCycles i :
-  in_domain_kErrCycles i = true -> has_live i = true -> validate_kErrCycles i = Accept.
+Theorem full_regular_kPathCoverCycles : full_statement_regular CkPathCoverCycles.
+Proof. intros i R. reg R. split; [intros D; apply validate_complete_kPathCoverCycles; auto|intros D _; apply accepts_domain_kPathCoverCycles; auto]. Qed.
+Theorem full_regular_MinPathCoverCycles : full_statement_regular CMinPathCoverCycles.
 Proof.
-  intros D L. rewrite has_live_all_ignored in L. apply negb_true_iff in L. accept_script_c i.
+  intros i R. reg R. split; [intros D; apply validate_complete_MinPathCoverCycles; auto; unfold deviates_MinPathCoverCycles; rewrite R1, R2; reflexivity
+                            |intros D _; apply accepts_domain_MinPathCoverCycles; auto].
 Qed.
 
-(* ================================================================== kPathCoverCycles *)
-Definition deviates_kPathCoverCycles (i : input) := dev_cov i || dev_expand i || dev_k_nonint i || dev_fooled_st i.
-Theorem validate_sound_kPathCoverCycles i :
-  validate_kPathCoverCycles i = RaiseValueError -> in_domain_kPathCoverCycles i = false.
+(* what is left open refutes the full statement of the remaining classes:
+   DESIGN #24 (all weighted elements ignored: OverflowError before k is looked at) for the weighted DAG / cyclic k-models and
+   MinFlowDecomp, the non-conserving flow for the cyclic flow decompositions *)
+Ltac refute_with w := let F := fresh in intros F; destruct (F w) as [F1 F2]; vm_compute in F1, F2;
+  first [ specialize (F1 eq_refl); discriminate | specialize (F2 eq_refl eq_refl); discriminate ].
+Definition w_all_ignored (base : input) := set_origin (set_cons (set_elems base [ign_elem] true) [] 0%Q) OEdge TInt.
+Theorem full_statement_refuted c :
+  In c [CkFlowDecomp; CMinFlowDecomp; CkMinPathError; CkLeastAbsErrors; CkFlowDecompCycles; CMinFlowDecompCycles;
+        CkMinPathErrorCycles; CkLeastAbsErrorsCycles] -> ~ full_statement_regular c.
 Proof.
-  intros H. destruct (in_domain_kPathCoverCycles i) eqn:D; [exfalso|reflexivity]. sound_script i.
+  intros H. cbn in H. repeat (destruct H as [<-|H]); try contradiction.
+  - intros F; destruct (F (w_all_ignored ex_dag) eq_refl) as [F1 _]; vm_compute in F1; specialize (F1 eq_refl); discriminate.
+  - intros F; destruct (F (w_all_ignored ex_dag) eq_refl) as [F1 _]; vm_compute in F1; specialize (F1 eq_refl); discriminate.
+  - intros F; destruct (F (w_all_ignored ex_dag) eq_refl) as [F1 _]; vm_compute in F1; specialize (F1 eq_refl); discriminate.
+  - intros F; destruct (F (w_all_ignored ex_dag) eq_refl) as [F1 _]; vm_compute in F1; specialize (F1 eq_refl); discriminate.
+  - intros F; destruct (F (set_flags ex_graph false false true [true; true]) eq_refl) as [F1 _]; vm_compute in F1; specialize (F1 eq_refl); discriminate.
+  - intros F; destruct (F (set_flags ex_graph false false true [true; true]) eq_refl) as [F1 _]; vm_compute in F1; specialize (F1 eq_refl); discriminate.
+  - intros F; destruct (F (w_all_ignored ex_graph) eq_refl) as [F1 _]; vm_compute in F1; specialize (F1 eq_refl); discriminate.
+  - intros F; destruct (F (w_all_ignored ex_graph) eq_refl) as [F1 _]; vm_compute in F1; specialize (F1 eq_refl); discriminate.
 Qed.
-Theorem validate_complete_kPathCoverCycles i :
-  in_domain_kPathCoverCycles i = false -> deviates_kPathCoverCycles i = false ->
-  validate_kPathCoverCycles i = RaiseValueError.
-Proof.
-  intros D V. unfold deviates_kPathCoverCycles in V. split_dev V. norm_hyps.
-  unfold in_domain_kPathCoverCycles in D. rewrite k_pos_split in D. complete_script_c i.
-Qed.
-Theorem accepts_domain_kPathCoverCycles i :
-  in_domain_kPathCoverCycles i = true -> validate_kPathCoverCycles i = Accept.
-Proof. intros D. accept_script_c i. Qed.
